@@ -8,12 +8,13 @@ EXTENDS Integers, Sequences, FiniteSets
 
 Abs(x) == IF x < 0 THEN -x ELSE x
 MinOfSet(S) == CHOOSE x \in S : \A y \in S : x <= y
+BigMag == 1000
 MSQuant(x) == x
 MSHard(x) == x <= 0
 MSCheckMsg(ins, i) ==
   LET others == { j \in 1..Len(ins) : j # i }
       neg == Cardinality({ j \in others : ins[j] < 0 })
-      mag == IF others = {} THEN 0 ELSE MinOfSet({ Abs(ins[j]) : j \in others })
+      mag == IF others = {} THEN BigMag ELSE MinOfSet({ Abs(ins[j]) : j \in others })   \* a check of degree one says: this bit is 0
   IN IF neg % 2 = 1 THEN -mag ELSE mag
 RECURSIVE SumSeq(_, _)
 SumSeq(s, k) == IF k = 0 THEN 0 ELSE SumSeq(s, k - 1) + s[k]
